@@ -119,9 +119,16 @@ type exchange struct {
 	Panic   string
 }
 
+// unsized hides the length of a reader, so the request has no Content-Length (chunked transfer).
+type unsized struct{ io.Reader }
+
 func doExchange(srv *server.Server, body io.Reader, hasBody bool, ctype string) (ex exchange) {
 	var req *http.Request
 	if hasBody {
+		if strings.HasSuffix(ctype, "#chunked") {
+			ctype = strings.TrimSuffix(ctype, "#chunked")
+			body = unsized{body}
+		}
 		req = httptest.NewRequest(http.MethodPost, "/?timeout=5s", body)
 	} else {
 		req = httptest.NewRequest(http.MethodPost, "/", nil)
@@ -196,7 +203,7 @@ func C16(seed int64, n int) (*cq.Set, *cq.Interner) {
 		default:
 			pl = "Garbage"
 		}
-		ct := ctype
+		ct := strings.TrimSuffix(ctype, "#chunked")
 		if ct == "<none>" {
 			ct = ""
 		}
@@ -235,6 +242,12 @@ func C16(seed int64, n int) (*cq.Set, *cq.Interner) {
 		}
 		add(fmt.Sprintf("size:%d", size-limit), rs, b, true, "application/json", "review")
 	}
+	// bodies of unknown length (chunked): a complete review followed by whitespace up to and beyond the limit
+	for _, size := range []int{limit - 1, limit, limit + 1, limit + 1024} {
+		b := append(append([]byte{}, good...), bytes.Repeat([]byte(" "), size-len(good))...)
+		add(fmt.Sprintf("chunked-size:%d", size-limit), rs, b, true, "application/json#chunked", "review")
+	}
+	add("chunked-small", rs, good, true, "application/json#chunked", "review")
 	// concurrent clients against one server
 	ts := httptest.NewServer(http.HandlerFunc(srv.HandleValidate))
 	defer ts.Close()
